@@ -204,13 +204,18 @@ class SqliteDLQMixin:
         """
         conn = self._get_connection()
 
-        # Find messages that have exceeded max_attempts
+        # Find messages that have exceeded max_attempts. poll_one() stops
+        # delivering at the queue's own limit, while a row pushed inside a
+        # transaction or replayed from the DLQ carries the message's / the
+        # column's default limit: with a queue limit below that, such a row
+        # was never delivered again and never swept either.
         result = conn.execute(
             f"""
             SELECT id, message_type, attempts
             FROM {self.table_name}
-            WHERE attempts >= max_attempts
+            WHERE attempts >= max_attempts OR attempts >= :queue_max_attempts
             """,
+            {"queue_max_attempts": self.max_attempts},
         )
         rows = result.fetchall()
 
